@@ -5,7 +5,7 @@
    for CHARM / HCUS / HQUICK in the literature. *)
 From Coq Require Import Reals Lra String List.
 Import ListNotations.
-Open Scope R_scope.
+Local Open Scope R_scope.
 
 Definition sp_CHARM (r : R) : R := if Rle_dec r 0 then 0 else r * (3 * r + 1) / ((r + 1) * (r + 1)).
 Definition sp_HCUS (r : R) : R := if Rle_dec r 0 then 0 else 3 * r / (r + 2).          (* 1.5 (r+|r|)/(r+2) *)
